@@ -34,6 +34,9 @@ WITNESSES = {
     "ResurrectGhost": ("Resurrect", 15, "NoResurrection"),
     "RefileGap": ("RefileGap", 16, "IndexOrder"),
     "PatchResurrects": ("PatchResurrects", 17, "NoResurrection"),
+    # not a deviation: a behaviour of the STRICT design in which a writer holds the record guard when the walk reaches the
+    # record (TLC's shortest path to the scenario state); the real walk must judge the record after the write
+    "GuardOrder": (None, 18, "NotGuardScenario"),
 }
 INVS = "Disjoint MatchedAtClaim NoResurrection AtMostN IndexOrder NoGhost LockOK"
 
@@ -376,14 +379,19 @@ def run(ctx):
     for wname in sorted(WITNESSES):
         d, lvl, inv = WITNESSES[wname]
         wf = os.path.join(ctx.work, "witness-%s.json" % wname)
-        rw = ctx.tlc("MC_Claims", cfg_text=mc_cfg(lvl, [d], extra="ACTION_CONSTRAINT Coarse", invs=inv), workers=1, timeout=1800,
+        rw = ctx.tlc("MC_Claims", cfg_text=mc_cfg(lvl, [d] if d else [], extra="ACTION_CONSTRAINT Coarse" if d else "ACTION_CONSTRAINT GuardScenarioOrder", invs=inv), workers=1, timeout=1800,
                      deadlock=False, name="mc-asbuilt-" + wname, extra=("-dumpTrace", "json", wf), count_states=False)
         if rw.ok or not os.path.exists(wf):
             raise vlib.Inconclusive("as-built Claims spec with %s satisfies every invariant (vacuous): %s" % (d, rw.error))
         ctx.extra.setdefault("asbuilt_witness_violates", {})[wname] = rw.violated
         if rw.violated != inv:
             raise vlib.Inconclusive("as-built witness %s breaks %s, expected %s" % (wname, rw.violated, inv))
-        scheds.append(witness_to_schedule(wname, wf))
+        sc = witness_to_schedule(wname, wf)
+        if d is None:
+            # the writer is parked holding the guard; where the walker stops (blocked on that guard) is observed, not demanded
+            for st in sc["steps"]:
+                st["want"] = "guard" if (st["act"] == "start" and st.get("op", {}).get("kind") == "patch") else ""
+        scheds.append(sc)
 
     binary = ctx.go_build("claims")
 
